@@ -11,7 +11,6 @@ RULE = ("automatic mode: every schedule (which thread runs next) of length <= 6 
         "random schedules up to length 40 - the two real threads of the implementation are driven by a deterministic scheduler on a "
         "virtual clock; manual mode: call sequences of advance / set_message / finish with clock steps {0,40,100,250} ms; "
         "non-trivial = a schedule in which both threads write; distinct by (body, schedule)")
-THEOREMS = ["auto_always_stops_spinner", "normal_exit_last_frame", "normal_exit_screen", "line_never_mixed", "every_write_is_whole", "manual_throttle", "manual_frames_wf"]
 TRUSTED = ["harness/sched.py: the scheduler that serialises the implementation's two threads at stream writes, time.sleep, Thread.start and "
            "Thread.join (patched inside clikit.ui.components.progress_indicator only); preemption inside a single stream write or between "
            "Python bytecodes is not explored"]
